@@ -123,6 +123,21 @@ func genPolyline(r *simrt.Rand, l latticeCfg) *Shape {
 	return &Shape{Family: "polyline", Segs: polygon(pts, r.Bool(0.3))}
 }
 
+// genOpenLines: several open polylines on the lattice. Open subject paths make the result builder
+// of the sweep walk back into squares it has already left.
+func genOpenLines(r *simrt.Rand, l latticeCfg) *Shape {
+	sh := &Shape{Family: "openlines"}
+	for c, nc := 0, 1+r.Intn(3); c < nc; c++ {
+		n := 2 + r.Intn(5)
+		pts := make([][2]float64, n)
+		for i := range pts {
+			pts[i] = [2]float64{l.coord(r), l.coord(r)}
+		}
+		sh.Segs = append(sh.Segs, polygon(pts, false)...)
+	}
+	return sh
+}
+
 func genShape(r *simrt.Rand, l latticeCfg) *Shape {
 	switch x := r.Intn(100); {
 	case x < 35:
@@ -188,6 +203,9 @@ func genGeometryStep(r *simrt.Rand, l latticeCfg, tols []float64) Step {
 	switch x := r.Intn(100); {
 	case x < 50:
 		a := genShape(r, l)
+		if r.Bool(0.25) {
+			a = genOpenLines(r, l)
+		}
 		var b *Shape
 		if r.Bool(0.35) {
 			b = deriveShape(r, a, l)
